@@ -287,11 +287,19 @@ pub struct Model
     pub rule_files: Vec<String>,
     pub render: RenderOpts,
     pub dirs: Vec<String>,
+    /// workspace directories the user has removed: nothing can be written below them
+    pub missing_dirs: BTreeSet<String>,
 }
 
 struct MapFs<'a>
 {
     m: &'a mut BTreeMap<String, (Vec<u8>, bool)>,
+    missing_dirs: &'a BTreeSet<String>,
+}
+
+pub fn under_missing_dir(missing: &BTreeSet<String>, path: &str) -> bool
+{
+    missing.iter().any(|d| path.starts_with(&format!("{}/", d)))
 }
 
 impl<'a> CmdFs for MapFs<'a>
@@ -302,6 +310,10 @@ impl<'a> CmdFs for MapFs<'a>
     }
     fn write(&mut self, path: &str, data: &[u8]) -> bool
     {
+        if under_missing_dir(self.missing_dirs, path)
+        {
+            return false;
+        }
         let exec = self.m.get(path).map(|x| x.1).unwrap_or(false);
         self.m.insert(path.to_string(), (data.to_vec(), exec));
         true
@@ -468,7 +480,7 @@ impl Model
             let mut work = scratch.clone();
             let mut ok = true;
             {
-                let mut fs = MapFs { m: &mut work };
+                let mut fs = MapFs { m: &mut work, missing_dirs: &self.missing_dirs };
                 for line in rule.script_lines()
                 {
                     let (code, _e) = cmd::run_line(&mut fs, &line);
